@@ -142,7 +142,7 @@ Definition premises (c : case) : bool :=
   | CSeq ids next ta tx tj queries q0 ops obs =>
       let s0 := init_state ids next in
       znodupb (present (st_entries s0)) &&
-      ((settledb (xmi_trav (nl ta) (nl tx)) s0 && settledb (nl ta ++ nl tj) s0) || wf_stateb s0)
+      ((settledb (xmi_trav (nl ta) (nl tx)) s0 && settledb (uniq (nl ta) ++ nl tj) s0) || wf_stateb s0)
   | CEmit e =>
       znodupb (map fi_id (em_found_x e)) && znodupb (map fi_id (em_found_j e)) &&
       forallb (fun p : list string * list string => snodupb (fst p)) (em_j_types e) &&
